@@ -411,6 +411,8 @@ def run(ctx):
                 return (seq, off + (ex.pretty(e.atom[1][2]),), frozen)
             if e.kind == 'branch' and e.atom[0] == 'truthy' and e.atom[1][0] == 'call' and e.atom[1][1] == 'std::any_of' and e.pol and 'lambda' in repr(e.atom[1]):
                 return (seq, off + ('one of get_hosts()',), frozen)
+            if e.kind == 'branch' and e.atom[0] == 'truthy' and e.atom[1][0] == 'call' and e.atom[1][1] in ('std::all_of', 'std::none_of') and 'lambda' in repr(e.atom[1]) and 'get_hosts' in repr(v.fn['elems']):
+                return (seq, off + ('QUANTIFIER %s over get_hosts()' % e.atom[1][1],), frozen)
             if e.kind == 'call' and e.q.endswith('ActivityImpl::set_state') and e.obj == ('this',):
                 return (seq + (sname(e.args[0]),), off, frozen)
             if e.kind == 'branch' and ('get_state' in repr(e.atom) and 'model_action_' not in repr(e.atom)):
@@ -433,6 +435,10 @@ def run(ctx):
                 ctx.violation('R5', '%s::finish: failure state %s is overwritten by %s' % (cls, over[0], over[1]), where(f),
                               'on the path where %s is off the state %s computed from the dead resource is replaced before anybody reads it: waiters get the exception of %s'
                               % (', '.join(off) or 'a resource', over[0], over[1]), key='R5|%s|overwritten %s' % (cls, over[0]))
+            elif off and any(o.startswith('QUANTIFIER') for o in off):
+                ctx.violation('R5', '%s::finish: a dead host among the hosts of the activity leads to a failure state' % cls, where(f),
+                              'the hosts are tested with %s: an activity spread over several hosts fails only when all of them are off' % [o for o in off if o.startswith('QUANTIFIER')][0].split()[1],
+                              key='R5|%s|dead resource state' % cls)
             elif off and cls != 'SleepImpl':
                 final = sets[-1] if sets else None
                 ctx.check(final in FAIL_STATES, 'R5', '%s::finish: %s off -> state %s at the answer loop' % (cls, ', '.join(off), final), where(f), 'set_state sequence %s' % sets,
